@@ -111,9 +111,16 @@ def opposed_tables():
     import random
     out = []
     for i, (kind, mono, curv) in enumerate((("inc_convex", 1, -1), ("dec_concave", -1, 1), ("inc_concave", 1, 1), ("dec_convex", -1, -1),
-                                            ("inc", -1, 0), ("inc_convex", 0, -1))):
+                                            ("inc", -1, 0), ("inc_convex", 0, -1),
+                                            # "is an integer, magnitude is ignored"
+                                            ("inc", -3, 0), ("dec", 2, 0), ("dec_convex", 5, 2))):
         t = gen_table(random.Random(700 + i), kind)
         t.update({"mono": mono, "curv": curv, "exact": False, "kind": kind + "_opposed"})
+        out.append(t)
+    # other spline orders: unconstrained least squares with one coefficient per data point reproduces the data
+    for i, k in enumerate((1, 2, 4, 5)):
+        t = gen_table(random.Random(760 + i), "free")
+        t.update({"mono": 0, "curv": 0, "k": k, "kind": "free_order_%d" % k})
         out.append(t)
     return out
 
@@ -168,13 +175,13 @@ def run_fit(tab):
     from rtctools.data.interpolation.bspline1d import BSpline1D
     x, y = np.array(tab["x"]), np.array(tab["y"])
     try:
-        t, c, k = BSpline1D.fit(x, y, k=3, monotonicity=tab["mono"], curvature=tab["curv"], ipopt_options={"print_level": 0})
+        t, c, k = BSpline1D.fit(x, y, k=tab.get("k", 3), monotonicity=tab["mono"], curvature=tab["curv"], ipopt_options={"print_level": 0})
     except Exception as e:  # noqa: BLE001
         return {"error": "%s: %s" % (type(e).__name__, str(e)[:160])}
     tp = np.linspace(x[0], x[-1], 100)
     tck = (t, c, k)
     return {"t": [float(v) for v in t], "c": [float(v) for v in c], "k": int(k),
-            "f_test": [float(v) for v in splev(tp, tck)], "d2_test": [float(v) for v in splev(tp, tck, der=2)],
+            "f_test": [float(v) for v in splev(tp, tck)], "d2_test": [float(v) for v in splev(tp, tck, der=2)] if k >= 2 else [0.0] * len(tp),
             "d1_test": [float(v) for v in splev(tp, tck, der=1)], "f_data": [float(v) for v in splev(x, tck)]}
 
 
